@@ -1093,8 +1093,8 @@ fn comp_strategy() -> impl Strategy<Value = CompCase> {
 }
 
 pub fn run_all(ctx: &mut Ctx, replay: Option<&Path>) {
-    ctx.rule("helpers (exhaustive): circular_swap vs circular_swap2 on all ordered tuples of >= 2 distinct indices (n <= 6/7) against an independent circular-shift reference; translocate_slice vs translocate_slice2 on all (n, start <= end <= n, index) that fit; multi_point_crossover / uniform_crossover on parent pairs over {0,1,2} and on fully distinguishable parents with all cut sets (ordered and unordered) and all masks against a parity / mask reference; arithmetic_crossover on a value x alpha grid (convexity, sum conservation, exact weights); cycle_crossover on all pairs of permutations (n <= 5) against a cycle reference. components (proptest): every mutation and recombination component on random populations (size 0-9, dim 1-8), rates/probabilities from {0, 0.05, 0.5, 1, random}, both insert modes; well-formedness, gene conservation, rate-0 identity, offspring counts, exact DE mutation, no panic / Err on a valid population, documented constructor ranges, UniformMutation bounds up to f64::MAX, the identifier-generic mutations instantiated with a non-default identifier alone and next to a default-identified instance with a different rate (each instance must obey its own rate); non-trivial = helper case with >= 3 indices / a moved non-empty slice / >= 2 cuts / >= 2 cycles, component case with population >= 2 and dim >= 3; distinct by case");
-    ctx.assume("NPointCrossover gets 1 <= n < dim, uniform-crossover masks have the parents' length, parents have equal length, permutation operators get length >= 2, DEMutation inputs are in the documented block layout (a malformed one must be an Err)");
+    ctx.rule("helpers (exhaustive): circular_swap vs circular_swap2 on all ordered tuples of >= 2 distinct indices (n <= 6/7) against an independent circular-shift reference; translocate_slice vs translocate_slice2 on all (n, start <= end <= n, index) that fit; multi_point_crossover / uniform_crossover on parent pairs over {0,1,2} and on fully distinguishable parents with all cut sets (ordered and unordered) and all masks against a parity / mask reference; arithmetic_crossover on a value x alpha grid and on random parents, also of different length (convexity, sum conservation, exact weights on the common prefix; every child keeps its own parent's length and tail); cycle_crossover on all pairs of permutations (n <= 5) against a cycle reference. components (proptest): every mutation and recombination component on random populations (size 0-9, dim 1-8), rates/probabilities from {0, 0.05, 0.5, 1, random}, both insert modes; well-formedness, gene conservation, rate-0 identity, offspring counts, exact DE mutation, no panic / Err on a valid population, documented constructor ranges, UniformMutation bounds up to f64::MAX, the identifier-generic mutations instantiated with a non-default identifier alone and next to a default-identified instance with a different rate (each instance must obey its own rate); the same with the rate adapted through the MutationRate state after initialisation (constructed with the opposite rate: the rate in the state decides); non-trivial = helper case with >= 3 indices / a moved non-empty slice / >= 2 cuts / >= 2 cycles, component case with population >= 2 and dim >= 3; distinct by case");
+    ctx.assume("NPointCrossover gets 1 <= n < dim, uniform-crossover masks have the parents' length, parents have equal length (except for the arithmetic_crossover helper, which only asks for enough alphas), permutation operators get length >= 2, DEMutation inputs are in the documented block layout (a malformed one must be an Err)");
     ctx.assume("translocate_slice: a range may end at the end of the permutation (Range::end is exclusive)");
     let h = HelperCheck;
     let k = CompCheck;
